@@ -1052,7 +1052,7 @@ def check(run):
 
     opts = {"dummy": True, "center": True, "poly": True, "cell": True, "nofitgrad": True, "vec": 0.12, "biases": ["harmonic", "harmonic", "walls", "linear"]}
     kinds = T1 + T1 + T2
-    ncases = 500 if quick else 20000
+    ncases = 500 if quick else 40000
     cases = load_corpus()
     # first block: each component alone under a harmonic restraint, plain groups (the (a) deliverable)
     plain = {"dummy": False, "center": False, "poly": False, "cell": False, "biases": ["harmonic"]}
@@ -1143,7 +1143,7 @@ def check(run):
     # ---- finite-difference sweep over configurations the model does not cover (a few per kind in the quick tier)
     if True:
         ur = V.rng("C01-unmodelled")
-        ucases = gen_unmodelled(ur, 84 if quick else 3000)
+        ucases = gen_unmodelled(ur, 84 if quick else 6000)
         ures = run_vsim(vsim, ucases)
         for case, res in zip(ucases, ures):
             name = case["name"]
